@@ -4,6 +4,7 @@ namespace XC.C15
 /-- `a2 mode=d|i|id path=… pw=HEX salt=HEX secret=HEX ad=HEX t=N m=N p=N len=N` -/
 def handle0 (line : String) : String :=
   let o := parseOp line
+  if o.cmd == "consts" then "19" else   -- argon2.Version = 0x13
   if o.cmd != "a2" then "bad-op" else
   let mode? : Option Nat := match o.get? "mode" with
     | some "d" => some 0
